@@ -1,12 +1,13 @@
 """C29 - thread-safe attribute values belong to their instance.
 BFS over all create / assign / read sequences (depth <= 5) on classes with 1-2
 thread-safe attributes and up to 3 instances, against a dict per instance."""
-import itertools
+import itertools, gc
 from mc.common import Result, Violation, load_miros
 load_miros()
 from miros.thread_safe_attributes import MetaThreadSafeAttributes
 
 PID = "C29"
+CROWD = 24
 
 
 def fresh_class(nattr, tag):
@@ -15,7 +16,7 @@ def fresh_class(nattr, tag):
 
 
 def ops_for(ninst, nattr):
-    ops = [("new",)]
+    ops = [("new",), ("drop",)]
     for i in range(ninst):
         for a in ["a", "b"][:nattr]:
             ops.append(("read", i, a))
@@ -32,6 +33,25 @@ def run_seq(seq, nattr, tag):
         if op[0] == "new":
             objs.append(K())
             model.append({a: 0 for a in ["a", "b"][:nattr]})
+        elif op[0] == "drop":
+            # the last instance dies (and with it a crowd of short-lived ones that were assigned values): instances
+            # created afterwards - very likely at the same addresses - must start from the default again
+            if not objs:
+                return "skip", None
+            objs.pop()
+            model.pop()
+            crowd = [K() for _ in range(CROWD)]
+            for q, o in enumerate(crowd):
+                for a in ["a", "b"][:nattr]:
+                    setattr(o, a, 1000 + q)
+            del crowd, o
+            gc.collect()
+            fresh = [K() for _ in range(CROWD)]
+            bad = [(q, a, getattr(o, a)) for q, o in enumerate(fresh) for a in ["a", "b"][:nattr] if getattr(o, a) != 0]
+            del fresh
+            if bad:
+                return ("new-instance-not-0/after-drop", "after %r, of %d instances created after %d assigned ones had died, %d read a stale "
+                        "value (first: instance %d %s=%r)" % (seq[:k + 1], CROWD, CROWD, len(bad), bad[0][0], bad[0][1], bad[0][2])), None
         else:
             i = op[1]
             if i >= len(objs):
@@ -91,7 +111,7 @@ def run(tier):
         states += len(seen)
     res.coverage = {"states": states, "transitions": n, "traces_validated_against_impl": n, "evaluations": n,
                     "distinct_nontrivial": states,
-                    "rule": "BFS over sequences (depth <= %d) of new-instance / set(instance, attr, value) / read(instance, attr) on a "
+                    "rule": "BFS over sequences (depth <= %d) of new-instance / drop-instance (+ a crowd of 24 assigned instances dies, 24 fresh ones must read the default) / set(instance, attr, value) / read(instance, attr) on a "
                             "fresh class with 1 or 2 thread-safe attributes and <= 3 instances; after every operation every "
                             "attribute of every instance is read back; states = distinct per-instance value maps" % depth,
                     "samples": samples, "exhaustive": True}
